@@ -4,7 +4,7 @@ import itertools
 import numpy as np
 from hypothesis import strategies as st
 
-from ..core import Clause, Violation
+from ..core import Clause, Violation, Discard
 
 RULE = ("Cases: (grid, exhaustive) edges [1,2,4] and [0.5,1,2,4]; every [T x M] frequency array with T<=2 "
         "(quick) / T*M<=4 with T<=3 (thorough), M<=2 over the values {-1, 0.25, each edge, each mid-bin, above} "
@@ -46,15 +46,17 @@ def oracle(case, rec):
     above = bool((f >= edges[-1]).any())
     onedge = bool(np.isin(f, edges).any())
     tag = ('below' if below else '') + ('above' if above else '') + ('edge' if onedge else '') or 'inrange'
-    f0, a0 = f.copy(), a.copy()
+    if not (np.all(np.isfinite(f)) and np.all(np.isfinite(a))):
+        raise Discard('non-finite input (outside the domain)')
+    f0, a0 = f.copy(), a.copy()      # the routines get these; the case itself stays pristine for the replay file
     try:
-        dense = np.asarray(emd.spectra.hilberthuang(f, a, edges.copy(), mode=mode, return_sparse=False))
-        sp = emd.spectra.hilberthuang(f, a, edges.copy(), mode=mode, return_sparse=True)
-        one = np.asarray(emd.spectra.hilberthuang_1d(f, a, edges.copy(), mode=mode))
+        one = np.asarray(emd.spectra.hilberthuang_1d(f0, a0, edges.copy(), mode=mode))
+        dense = np.asarray(emd.spectra.hilberthuang(f0, a0, edges.copy(), mode=mode, return_sparse=False))
+        sp = emd.spectra.hilberthuang(f0, a0, edges.copy(), mode=mode, return_sparse=True)
     except Exception as e:
         raise Violation('C10/raises/' + type(e).__name__, repr(e))
     if not (np.array_equal(f, f0) and np.array_equal(a, a0)):
-        raise Violation('C10/input-modified', '')
+        raise Violation('C10/input-modified', 'frequency or amplitude array changed by hilberthuang_1d / hilberthuang')
     spd = np.asarray(sp.toarray())
     if not close(dense, H):
         where = 'below-first-edge' if below and close(dense[1:], H[1:]) else tag
